@@ -64,9 +64,10 @@ CLAIMS = {
     "C03": dict(
         text=("Props/C03.lean: limitRun_spec - the model of PhysicalLimit::poll_execute outputs exactly (input.drop offset).take count for every batching of the input (induction over the batch list, "
               "any batch sizes incl. empty batches and batches straddling offset/limit) and is therefore independent of batch boundaries; limit_length / limit_count_schedule_independent - the operator state is shared by all "
-              "partitions, so a multi-partition run is limitRun on the batches in arrival order and the number of rows emitted depends only on how many arrive; limit_sublist - the output is a slice of what arrived. Tie: generated queries are executed under a base configuration and "
+              "partitions, so a multi-partition run is limitRun on the batches in arrival order and the number of rows emitted depends only on how many arrive; limit_sublist - the output is a slice of what arrived; scan_batches_spec - the table scan (scan_inner after the repair of F36) returns every stored row "
+              "exactly once, in order, in batches no larger than the output capacity whatever the stored chunk sizes, and unsliced_scan_exceeds_capacity (the pinned commit's scan). Tie: generated queries are executed under a base configuration and "
               "random points of the grid partitions x batch_size x enable_hash_joins with rows spread over several INSERTs; all runs, and CREATE TABLE AS row counts/contents, must equal Sem."),
-        note=TB + "tables are written with at most batch_size rows per INSERT (larger stored chunks panic: known finding probed on every run); thread interleavings below poll granularity are C04/C16.",
+        note=TB + "tables are written with up to 400 rows per INSERT whatever the batch size (stored chunks larger than the batch size used to panic: F36, repaired); thread interleavings below poll granularity are C04/C16.",
         technique="Lean proof (limit = exact slice for any batching) + configuration-grid differential against Sem",
         design="5/C03"),
     "C06": dict(
